@@ -305,3 +305,58 @@ def deleting_a_message_deletes_only_it():
     else:
         check(dev._msgs_.get(code) is newer, "a newer message for the same code is not deleted along with an old one")
     check("01" not in dev._msgz_[code][" I"], "the deleted message is gone from its (code, verb, context) slot")
+
+
+# ---- "the most recently received": which message a view reads --------------------------------------------------
+def value_of_msg_callsite(self, msg, key=None, zone_idx=None, domain_id=None):
+    """_msg_value_msg, recording call-site contract: hands back the message it was given (its own
+    contract is read_rule above)."""
+    return msg
+
+
+@harness("C14", cases=[("codes",), ("verb",), ("code",)], stubs={EB._MessageDB._msg_value_msg: value_of_msg_callsite})
+def newest_message_is_the_one_read(how):
+    """_msg_value_code: asked for a tuple of codes (Zone.setpoint reads 2309 and 2349, the modulation
+    level 3EF0 and 3EF1), for a code and verb (every context's message of that kind) or for one code,
+    it reads the MOST RECENTLY RECEIVED of the candidate messages -- whatever the order in which the
+    slots of the store were first created -- and nothing when there is none."""
+    codes = ["2309", "2349", "30C9"]
+    n = 3
+    stamp = [sym_int(f"received_at_{i}", 0, 10 ** 9) for i in range(n)]
+    assume(And(stamp[0] != stamp[1], stamp[0] != stamp[2], stamp[1] != stamp[2]))
+    msgs_, msgz_ = {}, {}
+    if how == "verb":
+        held = []
+        for i in range(n):  # one code and verb, three contexts, slots created in this order
+            if sym_bool(f"context_{i}_has_a_message"):
+                m = new_object(Message, code="2309", verb=" I", dtm=stamp[i], _ghost_name=f"m{i}")
+                msgz_.setdefault("2309", {}).setdefault(" I", {})[f"0{i}"] = m
+                held.append(m)
+        ent = new_object(EB._MessageDB, id="01:145038", _gwy=FakeGwy(None), _msgs_=msgs_, _msgz_=msgz_)
+        o = outcome(ent._msg_value_code, "2309", verb=" I")
+        cands = held
+    else:
+        order = sym_choice("slots_created_in_order", ["012", "021", "102", "120", "201", "210"])
+        held = {}
+        for ch in order:
+            i = int(ch)
+            if sym_bool(f"code_{codes[i]}_has_a_message"):
+                held[i] = new_object(Message, code=codes[i], verb=" I", dtm=stamp[i], _ghost_name=f"m{i}")
+                msgs_[codes[i]] = held[i]
+        ent = new_object(EB._MessageDB, id="01:145038", _gwy=FakeGwy(None), _msgs_=msgs_, _msgz_=msgz_)
+        if how == "codes":
+            o = outcome(ent._msg_value_code, ("2309", "2349"))
+            cands = [held[i] for i in (0, 1) if i in held]
+        else:
+            o = outcome(ent._msg_value_code, "2349")
+            cands = [held[1]] if 1 in held else []
+    check(o.ok, "_msg_value_code does not raise")
+    if not o.ok:
+        return
+    if not cands:
+        check(o.value is None, "with no candidate message nothing is read")
+        return
+    check(any(o.value is m for m in cands), "the message read is one of the candidates (right code / verb)")
+    if any(o.value is m for m in cands):
+        for m in cands:
+            check(o.value.dtm >= m.dtm, "the message read is the most recently received of the candidates")
